@@ -43,6 +43,21 @@ def _locks_state(ctx, callee):
     return bool(ctx.locks.may_acquire().get(callee))
 
 
+def _expired_flag(ctx, b, bb):
+    """value of the must-fact on the *flag itself* returned by has_subscription_expired (`.Ok.0.0`), not on anything merely
+    computed from its results (a comparison re-derived from the returned expiry and some other height is not the Gatekeeper's verdict)"""
+    for f in facts_at(ctx, b, bb):
+        if f[0] == "truth" and _is_flag(f[1]):
+            return f[2]
+    return None
+
+
+def _is_flag(t):
+    t = og.strip(t)
+    return isinstance(t, tuple) and len(t) == 3 and t[0] == "proj" and isinstance(t[1], tuple) and t[1] and t[1][0] == "call" and t[1][1] == EXPIRED \
+        and tuple(x for x in t[2] if x != "*") == ("v:Ok", "f:0", "f:0")
+
+
 def rule_AU1(ctx, tier):
     rr = RuleResult("AU1", "authenticate first, check expiry, then act on the authenticated id; request-specific messages")
     P = ctx.prog
@@ -73,7 +88,7 @@ def rule_AU1(ctx, tier):
             if not touches:
                 continue
             authed = variant_fact(ctx, b, bb, "Continue", "Gatekeeper::authenticate_user")
-            notexp = truth_fact(ctx, b, bb, "Gatekeeper::has_subscription_expired")
+            notexp = _expired_flag(ctx, b, bb)
             if authed and notexp is False:
                 rr.ok("%s: %s after auth+expiry" % (name, shortfn(tgt)), sample={"rule": "AU1", "in": fn, "call": tgt, "facts": ["authenticate_user = Ok", "has_subscription_expired = false"]})
             else:
@@ -86,7 +101,11 @@ def rule_AU1(ctx, tier):
         else:
             rr.fail("%s:expiry-before-auth" % name, "has_subscription_expired is evaluated before authentication succeeded", where=b.line_of(ex[0]))
         # failure edges return an error without effects: the Err returned on the expired edge carries the expiry
-        for sw, succ in switch_succ_with(ctx, b, "truth", True, "Gatekeeper::has_subscription_expired"):
+        exp_edges = [(sw, succ) for sw, succ in switch_succ_with(ctx, b, "truth", True, "Gatekeeper::has_subscription_expired")
+                     if any(f[0] == "truth" and f[2] is True and _is_flag(f[1]) for f in ctx.pf.switch_facts(b, sw).get(succ, ()))]
+        if not exp_edges:
+            rr.fail("%s:no-expired-edge" % name, "`%s` never branches on the flag returned by has_subscription_expired: the Gatekeeper's verdict (taken at its own height, under its own lock) is not what decides" % shortfn(fn), where=b.span)
+        for sw, succ in exp_edges:
             eff = [bb for bb in b.reachable(succ) if b.term(bb)["k"] == "call" and any(n in P.bodies and _locks_state(ctx, n) for n in call_names(b.term(bb)))]
             if eff:
                 rr.fail("%s:expired-path-has-effects" % name, "the expired-subscription path calls `%s`" % call_target(b.term(eff[0])), where=b.line_of(eff[0]))
